@@ -13,7 +13,12 @@ using ::Bytes;
 static const size_t S = iobuffer::sum;
 
 inline void fatal_exit(int code) { _exit(code == VS_DEADLOCK ? VS_EXIT_DEADLOCK : code == VS_HORIZON ? VS_EXIT_HORIZON : 49); }
+// second deterministic schedule ("rr"): round robin at every scheduling point, with scheduling points also at every function entry/exit
+// inside the cipher-stream code (those translation units are then built with -finstrument-functions): every worker is interleaved with
+// every other one at the finest granularity the scheduler has - state that leaks between the per-worker streams changes the result
+static int g_sched_policy = 0, g_streampoints = 0;
 inline void canon_begin() {
+  vs_policy = g_sched_policy;
   vs_nprefix = 0;
   vs_sleepmode = 0;
   vs_spurious = 0;
@@ -23,6 +28,14 @@ inline void canon_begin() {
 }
 inline void canon_end() { vs_end(); }
 
+} // namespace fo
+extern "C" {
+void __cyg_profile_func_enter(void *, void *) __attribute__((no_instrument_function));
+void __cyg_profile_func_exit(void *, void *) __attribute__((no_instrument_function));
+void __cyg_profile_func_enter(void *, void *) { if (fo::g_streampoints && vs_active() && vs_self() > 0) vs_point(300, -1); }
+void __cyg_profile_func_exit(void *, void *) { if (fo::g_streampoints && vs_active() && vs_self() > 0) vs_point(301, -1); }
+}
+namespace fo {
 struct OpResult {
   bool ret = false;
   Bytes out;          // bytes found in the output file afterwards
